@@ -13,8 +13,9 @@
 //	H X <class> T<hex text> ; OPTCFG                  ;                 malformed JSON text
 //	H R CFG                 ; OPTCFG                  ; - | JSON        protojson.Marshal(cfg) parsed back (+ its AST)
 //	H B                     ; dmin dmax dstreams      ;                 new balancer (outputs: the package's default constants)
-//	  U <mode> [CFG]        ; err newsub updaddr same ; UOBS            one UpdateClientConnState
+//	  U <mode> <#addrs> <fail> [CFG] ; err attempts created updaddr same ; UOBS   one UpdateClientConnState
 //	  Z                     ;                         ; UOBS            overwrite every message passed in so far
+//	  S <n> <ready>         ;                         ; UOBS            n pool connections report Shutdown (after Ready if ready=1)
 //	H G OPTCFG              ; err same fresh          ; OPTCFG x4       NewGCPMultiEndpoint + GCPConfig()
 //
 // The token grammar is documented in ocaml/config/config_driver_body.ml.
@@ -40,6 +41,7 @@ import (
 
 	"google.golang.org/grpc"
 	"google.golang.org/grpc/balancer"
+	"google.golang.org/grpc/connectivity"
 	"google.golang.org/grpc/credentials/insecure"
 	"google.golang.org/grpc/grpclog"
 	"google.golang.org/grpc/resolver"
@@ -675,20 +677,29 @@ func vcParse(text []byte) (res string) {
 	return t1
 }
 
-// fake balancer.ClientConn / SubConn: refuse nothing, count everything
+// fake balancer.ClientConn / SubConn: counts everything; refuses to create a
+// SubConn only when the history says so (fail) or when there is no address
 type vcCC struct {
-	newSub, updAddr, connects int
+	attempts, created, updAddr, connects int
+	fail                                bool
+	live                                []*vcSC
 }
 
 func (c *vcCC) NewSubConn(a []resolver.Address, o balancer.NewSubConnOptions) (balancer.SubConn, error) {
-	c.newSub++
-	return &vcSC{cc: c}, nil
+	c.attempts++
+	if c.fail || len(a) == 0 {
+		return nil, errors.New("vc: SubConn creation refused")
+	}
+	c.created++
+	sc := &vcSC{cc: c}
+	c.live = append(c.live, sc)
+	return sc, nil
 }
-func (c *vcCC) RemoveSubConn(balancer.SubConn)                        {}
-func (c *vcCC) UpdateAddresses(balancer.SubConn, []resolver.Address)  {}
-func (c *vcCC) UpdateState(balancer.State)                            {}
-func (c *vcCC) ResolveNow(resolver.ResolveNowOptions)                 {}
-func (c *vcCC) Target() string                                        { return "vc" }
+func (c *vcCC) RemoveSubConn(balancer.SubConn)                       {}
+func (c *vcCC) UpdateAddresses(balancer.SubConn, []resolver.Address) {}
+func (c *vcCC) UpdateState(balancer.State)                           {}
+func (c *vcCC) ResolveNow(resolver.ResolveNowOptions)                {}
+func (c *vcCC) Target() string                                       { return "vc" }
 
 type vcSC struct{ cc *vcCC }
 
@@ -784,10 +795,11 @@ func (b *vcBal) obs() string {
 }
 
 // one UpdateClientConnState; returns "outs ; obs"
-func (b *vcBal) update(mode int, cfg *pb.ApiConfig) (line string) {
+func (b *vcBal) update(mode, naddr int, fail bool, cfg *pb.ApiConfig) (line string) {
 	defer func() {
+		b.cc.fail = false
 		if r := recover(); r != nil {
-			line = "1 -1 -1 0 ; - 0 0 0"
+			line = "1 -1 -1 -1 0 ; - 0 0 0"
 		}
 	}()
 	var bc serviceconfig.LoadBalancingConfig
@@ -809,9 +821,14 @@ func (b *vcBal) update(mode int, cfg *pb.ApiConfig) (line string) {
 	if cfg != nil {
 		snap = proto.Clone(cfg).(*pb.ApiConfig)
 	}
-	n0, u0 := b.cc.newSub, b.cc.updAddr
+	var addrs []resolver.Address
+	for i := 0; i < naddr; i++ {
+		addrs = append(addrs, resolver.Address{Addr: fmt.Sprintf("vc:%d", i+1)})
+	}
+	b.cc.fail = fail
+	a0, c0, u0 := b.cc.attempts, b.cc.created, b.cc.updAddr
 	err := b.gb.UpdateClientConnState(balancer.ClientConnState{
-		ResolverState:  resolver.State{Addresses: []resolver.Address{{Addr: "vc:1"}}},
+		ResolverState:  resolver.State{Addresses: addrs},
 		BalancerConfig: bc,
 	})
 	same := 1
@@ -822,7 +839,32 @@ func (b *vcBal) update(mode int, cfg *pb.ApiConfig) (line string) {
 	if err != nil {
 		e = 1
 	}
-	return fmt.Sprintf("%d %d %d %d ; %s", e, b.cc.newSub-n0, b.cc.updAddr-u0, same, b.obs())
+	return fmt.Sprintf("%d %d %d %d %d ; %s", e, b.cc.attempts-a0, b.cc.created-c0, b.cc.updAddr-u0, same, b.obs())
+}
+
+// the first n connections still in the pool report Shutdown (after Ready if asked)
+func (b *vcBal) shutdown(n int, ready bool) (obs string) {
+	defer func() {
+		if r := recover(); r != nil {
+			obs = "- 0 0 -1"
+		}
+	}()
+	var rest []*vcSC
+	for _, sc := range b.cc.live {
+		if _, in := b.gb.scRefs[sc]; !in || n <= 0 {
+			if in {
+				rest = append(rest, sc)
+			}
+			continue
+		}
+		n--
+		if ready {
+			b.gb.UpdateSubConnState(sc, balancer.SubConnState{ConnectivityState: connectivity.Ready})
+		}
+		b.gb.UpdateSubConnState(sc, balancer.SubConnState{ConnectivityState: connectivity.Shutdown})
+	}
+	b.cc.live = rest
+	return b.obs()
 }
 
 func (b *vcBal) mutateAll() string {
@@ -1644,28 +1686,57 @@ func (r *vcRun) renderCase(c *pb.ApiConfig) {
 }
 
 type vcUpd struct {
-	op   byte // U Z
-	mode int
-	cfg  *pb.ApiConfig
+	op    byte // U Z S
+	mode  int
+	naddr int
+	fail  bool
+	n     int  // S: how many connections
+	ready bool // S: report Ready first
+	cfg   *pb.ApiConfig
+}
+
+func vcB01(b bool) int {
+	if b {
+		return 1
+	}
+	return 0
 }
 
 func (r *vcRun) balancerCase(ops []vcUpd) {
 	b := vcNewBal()
 	fmt.Fprintf(r.w, "H B ; %d %d %d ;\n", defaultMinSize, defaultMaxSize, defaultMaxStreams)
 	r.stats["kind B"]++
+	inited, emptied := false, false
 	for _, o := range ops {
 		switch o.op {
 		case 'U':
+			was := len(b.gb.scRefs)
 			if o.mode == 3 {
-				fmt.Fprintf(r.w, "U 3 %s ; %s\n", vcCfgTokens(o.cfg), b.update(3, o.cfg))
+				fmt.Fprintf(r.w, "U 3 %d %d %s ; %s\n", o.naddr, vcB01(o.fail), vcCfgTokens(o.cfg), b.update(3, o.naddr, o.fail, o.cfg))
 			} else {
-				fmt.Fprintf(r.w, "U %d ; %s\n", o.mode, b.update(o.mode, nil))
+				fmt.Fprintf(r.w, "U %d %d %d ; %s\n", o.mode, o.naddr, vcB01(o.fail), b.update(o.mode, o.naddr, o.fail, nil))
 			}
 			r.stats[fmt.Sprintf("B update mode %d", o.mode)]++
+			if o.fail || o.naddr == 0 {
+				r.stats["B update with SubConn creation refused"]++
+			}
+			if inited && was == 0 {
+				r.stats["B update after the first, on an empty pool"]++
+				emptied = true
+			}
+			if b.gb.cfg != nil {
+				inited = true
+			}
 		case 'Z':
 			fmt.Fprintf(r.w, "Z ; ; %s\n", b.mutateAll())
 			r.stats["B mutate"]++
+		case 'S':
+			fmt.Fprintf(r.w, "S %d %d ; ; %s\n", o.n, vcB01(o.ready), b.shutdown(o.n, o.ready))
+			r.stats["B shutdown"]++
 		}
+	}
+	if emptied {
+		r.stats["B histories with a later update on an empty pool"]++
 	}
 }
 
@@ -1689,18 +1760,65 @@ func vcGenMode(g *vcRng) int {
 	return 4
 }
 
+func vcGenUpdate(g *vcRng) vcUpd {
+	m := vcGenMode(g)
+	u := vcUpd{op: 'U', mode: m, naddr: 1}
+	if m == 3 {
+		u.cfg = vcGenCfg(g, true)
+	}
+	switch g.intn(12) {
+	case 0:
+		u.naddr = 0
+	case 1:
+		u.fail = true
+	case 2:
+		u.naddr = 2
+	}
+	return u
+}
+
 func (r *vcRun) genBalancer(g *vcRng) {
 	var ops []vcUpd
-	n := 1 + g.intn(4)
-	for i := 0; i < n; i++ {
-		m := vcGenMode(g)
-		u := vcUpd{op: 'U', mode: m}
-		if m == 3 {
-			u.cfg = vcGenCfg(g, true)
+	shut := func() vcUpd {
+		n := 1000 // all of them
+		if g.intn(4) == 0 {
+			n = 1 + g.intn(3)
+		}
+		return vcUpd{op: 'S', n: n, ready: g.intn(2) == 0}
+	}
+	switch g.intn(4) {
+	case 0: // the pool is emptied between updates
+		ops = append(ops, vcGenUpdate(g))
+		for k := 1 + g.intn(3); k > 0; k-- {
+			if g.intn(3) == 0 {
+				ops = append(ops, vcUpd{op: 'Z'})
+			}
+			ops = append(ops, shut(), vcGenUpdate(g))
+		}
+	case 1: // connections cannot be created at first
+		u := vcGenUpdate(g)
+		if g.intn(2) == 0 {
+			u.naddr, u.fail = 0, false
+		} else {
+			u.naddr, u.fail = 1, true
 		}
 		ops = append(ops, u)
-		if g.intn(3) == 0 {
-			ops = append(ops, vcUpd{op: 'Z'})
+		for k := 1 + g.intn(3); k > 0; k-- {
+			ops = append(ops, vcGenUpdate(g))
+			if g.intn(4) == 0 {
+				ops = append(ops, shut())
+			}
+		}
+	default: // any mix of updates, shutdowns and overwrites
+		n := 1 + g.intn(6)
+		for i := 0; i < n; i++ {
+			ops = append(ops, vcGenUpdate(g))
+			if g.intn(3) == 0 {
+				ops = append(ops, vcUpd{op: 'Z'})
+			}
+			if g.intn(4) == 0 {
+				ops = append(ops, shut())
+			}
 		}
 	}
 	if g.intn(2) == 0 {
@@ -1799,14 +1917,14 @@ func (r *vcRun) replay(lines []string) {
 				continue
 			}
 			m := int(t.num())
-			u := vcUpd{op: 'U', mode: m}
+			u := vcUpd{op: 'U', mode: m, naddr: int(t.num()), fail: t.num() != 0}
 			if m == 3 {
 				u.cfg = vcParseCfgTokens(t)
 				if u.cfg != nil && u.cfg.GetChannelPool().GetMinSize() > 4096 {
 					t.bad = true // would create that many fake connections
 				}
 			}
-			if !t.bad && m >= 0 && m <= 4 {
+			if !t.bad && m >= 0 && m <= 4 && u.naddr >= 0 && u.naddr <= 8 {
 				ops = append(ops, u)
 			} else {
 				r.bug("bad U line: %s", raw)
@@ -1814,6 +1932,17 @@ func (r *vcRun) replay(lines []string) {
 		case "Z":
 			if inB {
 				ops = append(ops, vcUpd{op: 'Z'})
+			}
+		case "S":
+			if !inB {
+				continue
+			}
+			n := int(t.num())
+			rd := t.num() != 0
+			if !t.bad {
+				ops = append(ops, vcUpd{op: 'S', n: n, ready: rd})
+			} else {
+				r.bug("bad S line: %s", raw)
 			}
 		}
 	}
